@@ -231,7 +231,8 @@ func c19r1(c *core.Ctx) {
 					}
 					if ok {
 						capAdd, memAdd := false, false
-						ast.Inspect(body, func(x ast.Node) bool {
+						// the additions themselves may sit in a small helper that is handed the capacity (totals.addFree(int(table.cap), mem))
+						inspectThrough(m, body, 2, nil, func(x ast.Node) bool {
 							as, ok := x.(*ast.AssignStmt)
 							if !ok || as.Tok != token.ADD_ASSIGN || len(as.Rhs) != 1 {
 								return true
@@ -372,6 +373,22 @@ func poolAccessorRole(m *core.Model, f *core.Func) string {
 	return ""
 }
 
+// accumulatorOf: e reads a local accumulator - a local variable or a field of a struct-valued local.
+func accumulatorOf(m *core.Model, e ast.Expr) bool {
+	e = m.StripConv(e)
+	if identOf(e) != nil {
+		return true
+	}
+	if sel, ok := ast.Unparen(e).(*ast.SelectorExpr); ok {
+		if id := identOf(sel.X); id != nil {
+			if v, ok := m.Info.ObjectOf(id).(*types.Var); ok && !v.IsField() && v.Parent() != nil && v.Pkg() != nil && v.Parent() != v.Pkg().Scope() {
+				return true
+			}
+		}
+	}
+	return false
+}
+
 func c19r2(c *core.Ctx) {
 	a := GetAnchors(c)
 	m := c.M
@@ -472,8 +489,8 @@ func c19r2(c *core.Ctx) {
 			return k == core.CallStatic && a.LockTests[cal]
 		},
 		// the sums are accumulated in locals (checked below: every loop over the archetypes adds both figures)
-		"Memory":     func(e ast.Expr) bool { return identOf(m.StripConv(e)) != nil },
-		"MemoryUsed": func(e ast.Expr) bool { return identOf(m.StripConv(e)) != nil },
+		"Memory":     func(e ast.Expr) bool { return accumulatorOf(m, e) },
+		"MemoryUsed": func(e ast.Expr) bool { return accumulatorOf(m, e) },
 	}
 	got := map[string]bool{}
 	core.InspectNoLits(f.Body, func(n ast.Node) bool {
@@ -537,7 +554,8 @@ func c19r2(c *core.Ctx) {
 			}
 			calls := false
 			mem, used := false, false
-			ast.Inspect(body, func(x ast.Node) bool {
+			// the additions may sit in a small helper that is handed the archetype's statistics (totals.add(archStats))
+			inspectThrough(m, body, 2, func(cal *core.Func) bool { return cal.Recv != "archetype" && cal.Recv != "table" }, func(x ast.Node) bool {
 				switch y := x.(type) {
 				case *ast.CallExpr:
 					if isArchStatsCall(y) {
